@@ -627,8 +627,9 @@ class Check(object):
         self.kf = set(e.get('id') for e in ctx.known_findings)
         self.tie_diffs = {'S7': [], 'S4': [], 'gen': []}
         self.found = {}
-        self.shrinks_left = ctx.n(25, 40)
+        self.shrinks_left = ctx.n(12, 40)
         self.n7 = self.n4 = self.nj = 0
+        self.n_impl, self.impl_fail = 0, []
 
     # ---- one program
     def parse(self, text):
@@ -731,6 +732,13 @@ class Check(object):
         if do_agree:
             rep = self.drv.ask('agree 0 0 K ' + line)
             ctx.bump('ScopeAgree:' + rep)
+            # model-level test of the (unproved) implication  ScopeAgree p  =>  the renaming preserves the binding structure
+            for fl in (('0 0 K', '1 1 K') if len(text) < 3000 else ()):
+                pres = self.drv.ask('preserved %s %s' % (fl, line))
+                ctx.bump('model:bindingPreserved[%s]:%s' % (fl, pres))
+                self.n_impl += 1
+                if rep == 'OK T' and pres == 'OK F':
+                    self.impl_fail.append(dict(text=text[:400], flags=fl))
         for cfg in cfgs:
             ctx.case((cfg.id, text))
             ctx.bump('origin:' + origin)
@@ -787,6 +795,8 @@ class Check(object):
             ctx.violation('obfuscation breaks the property (%s): %r with %s: %s'
                           % (', '.join(key), small[:300], cfg.id, sfails[0][1][:300]),
                           dict(kind='program', text=small, printer=cfg.todict(), categories=list(key)), True)
+        ctx.obligation('model: ScopeAgree p implies bindingPreserved p (Proofs/ObfRename.lean; tested per program, not proved)',
+                       not self.impl_fail, 'tie', '%d (program, flags) pairs; counterexamples: %r' % (self.n_impl, self.impl_fail[:2]))
         for stage, what in (('S7', 'Obfuscator state after the prewalk (scope tree, counts, remap tables, resolved names) vs drv_obf'),
                             ('S4', 'fragment streams of the obfuscating printers vs Model.Obfuscate + Model.Unparse'),
                             ('gen', 'NameGenerator(skip, charset) vs the model generator')):
@@ -848,7 +858,7 @@ def run(ctx):
         if n > 1000:
             sel = sel[:2]
         ctx.bump('big-scope:%d' % n)
-        chk.process(text, sel, 'big-scope', do_agree=(n <= 600))
+        chk.process(text, sel, 'big-scope', do_agree=(n <= 230))
     chk.gen_tie(ctx.sub_rng('gen'), ctx.n(60, 600))
     # known-finding witnesses
     for e in ctx.known_findings:
